@@ -742,10 +742,10 @@ func TestC08(t *testing.T) {
 	defer finishProperty(st)
 	t.Run("templates", func(t *testing.T) { c08Templates(t, st) })
 	t.Run("windows", func(t *testing.T) {
-		rapid.Check(t, func(t *rapid.T) { c08GeneratedWindow(t, st) })
+		checkCases(t, st, func(t *rapid.T) { c08GeneratedWindow(t, st) })
 	})
 	t.Run("free", func(t *testing.T) {
-		rapid.Check(t, func(t *rapid.T) { c08FreeRunning(t, st) })
+		checkCases(t, st, func(t *rapid.T) { c08FreeRunning(t, st) })
 	})
 }
 
